@@ -64,6 +64,27 @@ theorem lookup_current_name (ops : List Op) : ∀ p ∈ (run ops).tasks,
   subst hk
   exact lookup_of_mem hi.keysNodup hp
 
+/-- Read-only queries are pure: `get(task_name=)`, `get(hash=)` and iteration leave the registry — names, counts,
+`task_hashes` — exactly as it was, whatever is asked for (registered, formerly registered or unknown). -/
+theorem lookup_pure (r : Reg) (n : String) (h : H) :
+    step r (.getName n) = r ∧ step r (.getHash h) = r ∧ step r .iterate = r := ⟨rfl, rfl, rfl⟩
+
+/-- so interleaving any number of queries into a history changes nothing -/
+theorem queries_do_not_matter (ops : List Op) (q : Op) (hq : (∃ n, q = .getName n) ∨ (∃ h, q = .getHash h) ∨ q = .iterate)
+    (ops' : List Op) : run (ops ++ q :: ops') = run (ops ++ ops') := by
+  have hs : ∀ r, step r q = r := by
+    intro r
+    rcases hq with ⟨n, rfl⟩ | ⟨h, rfl⟩ | rfl <;> rfl
+  simp [run, List.foldl_append, List.foldl_cons, hs]
+
+/-- The by-hash lookup finds a task exactly for the hashes with a non-zero count (the fact a count-based fast path
+would rely on), and what it finds is a registered task with that hash. -/
+theorem get_hash_none_iff_count_zero (ops : List Op) (h : H) :
+    getByHash h (run ops) = none ↔ cnt h (run ops).counts = 0 := getByHash_none_iff _ (run_inv ops) h
+
+theorem get_hash_finds_registered (ops : List Op) (h : H) (t : Registry.Task) (hs : getByHash h (run ops) = some t) :
+    t.hash = h ∧ ∃ k, (k, t) ∈ (run ops).tasks := getByHash_some _ h t hs
+
 theorem names_unique (ops : List Op) : ((run ops).tasks.map (·.1)).Nodup := (run_inv ops).keysNodup
 
 /-- Wrapping a registered plain task with a wrapper named `w`: the wrapper is registered under the
